@@ -522,6 +522,12 @@ func runCheck(P *Program, DB *ContractDB, prop, tier string, only string) *check
 	recs := make([]oblRecord, len(obls))
 	var wg sync.WaitGroup
 	sem := make(chan struct{}, 8)
+	openKnown := map[string]bool{}
+	for _, k := range loadKnown() {
+		if k.Status == "open" {
+			openKnown[k.Obligation] = true
+		}
+	}
 	for i, o := range obls {
 		wg.Add(1)
 		go func(i int, o *Obligation) {
@@ -536,7 +542,41 @@ func runCheck(P *Program, DB *ContractDB, prop, tier string, only string) *check
 			if o.MustFail {
 				r = SolveProbe(o.Script(), dir, fmt.Sprintf("o%04d", i), 3)
 			} else {
-				r = Solve(o.Script(), dir, fmt.Sprintf("o%04d", i), to, tier == "thorough")
+				// extra effort (default-config z3, case analysis) only where a verdict is
+				// owed: claimed obligations that are not listed as open known findings
+				deep := o.Claimed && !openKnown[o.Name]
+				if !deep && to > 8 {
+					to = 8
+				}
+							r = SolveOpt(o.Script(), dir, fmt.Sprintf("o%04d", i), to, tier == "thorough", deep)
+				if r.Verdict == "unknown" && deep {
+					// instantiation gave up on the merged paths: decide the same formula by
+					// case analysis over the latest branch conditions (all cases must be unsat)
+					if conds := o.SplitConds(3); len(conds) > 0 {
+						all, used := true, map[string]bool{}
+						t0 := time.Now()
+						for m := 0; m < 1<<len(conds) && all; m++ {
+							sc := o.Script()
+							for j, c := range conds {
+								if m>>j&1 == 1 {
+									sc += "(assert " + c + ")\n"
+								} else {
+									sc += "(assert " + sNot(c) + ")\n"
+								}
+							}
+							cr := Solve(sc, dir, fmt.Sprintf("o%04d.case%d", i, m), to, false)
+							if cr.Verdict != "unsat" {
+								all = false
+							}
+							used[cr.Solver] = true
+						}
+						if all {
+							r.Verdict, r.Solver = "unsat", "case-split("+strings.Join(sortedKeys(used), ",")+")"
+							r.Raw["case-split"] = fmt.Sprintf("%d cases over %d branch conditions, all unsat", 1<<len(conds), len(conds))
+							r.TimeS += time.Since(t0).Seconds()
+						}
+					}
+				}
 			}
 			o.Result = &r
 			rec := oblRecord{Name: o.Name, Kind: o.Kind, Func: o.Func, Clause: o.Clause, Pos: o.Pos, Verdict: r.Verdict, Solver: r.Solver, TimeS: r.TimeS, Raw: r.Raw, Confirm: r.Confirm, Claimed: o.Claimed}
